@@ -196,6 +196,42 @@ def typed_diff(expr: str, engine: str):
     return check
 
 
+def generators_concrete(tier: str = "quick"):
+    """Concrete complement of the symbolic obligations for programs with generator expressions: CrossHair evaluates any()/all() over
+    symbolic elements without the early exit of the builtins, so the engine's behaviour after an abandoned generator (loop variables,
+    cleanup) is only seen with concrete values. Every such program x a grid of field values x both engines against the reference."""
+    from flow.record.selector import CompiledSelector, Selector
+
+    D = descriptor()
+    preds, _ = programs(tier, 0)
+    gens = [(t, tags) for t, tags in preds if " for " in t and not (tags & {"hunt"})]
+    grid = [(n, m, s_, t_, b, o) for n in (0, 1, 3, 5) for m in (0, 2, 5) for s_, t_ in (("", "a"), ("a", "ab"), ("b", "")) for b in (False, True) for o in (None, 1)]
+    bad = []
+    for text, tags in gens:
+        code, subs = selector_ref.compile_ref(text)
+        for eng, cls in (("i", Selector), ("c", CompiledSelector)):
+            if eng == "i" and ("outside" in tags or "compiled-only" in tags or not grammar.uses_only_tables(text)):
+                continue
+            if eng == "c" and "interp-only" in tags:
+                continue
+            sel = cls(text)
+            for vals in grid:
+                v = dict(zip(["n", "m", "s", "t", "b", "o"], vals))
+                defined, exp = selector_ref.evaluate(code, subs, selector_ref.namespace(v, grammar.FIELDS, grammar.RECNAME))
+                if not defined:
+                    continue
+                try:
+                    got, raised = bool(sel.match(D(*vals))), None
+                except Exception as e:  # noqa: BLE001
+                    got, raised = None, f"{type(e).__name__}: {e}"
+                if raised and eng == "i" and "may-reject" in tags:
+                    continue
+                if raised or got != exp:
+                    bad.append(f"{cls.__name__}({text!r}) on {v}: " + (f"raised {raised}" if raised else str(got)) + f", Python meaning: {exp}")
+                    break
+    return {"ok": not bad, "detail": f"{len(gens)} programs with generator expressions x {len(grid)} records x 2 engines; " + "; ".join(bad[:3]), "cex": {"kw": {"problems": bad[:8]}}}
+
+
 def programs(tier, seed):
     depth = 1 if tier == "quick" else 2
     preds = grammar.predicates(depth)
@@ -205,7 +241,7 @@ def programs(tier, seed):
 
 def obligations(tier, seed):
     preds, combos = programs(tier, seed)
-    obs = [ob("side/plain-field-types", "side", "check_value_types_plain", {})]
+    obs = [ob("side/plain-field-types", "side", "check_value_types_plain", {}), ob("side/generators-concrete", "side", "generators_concrete", {"tier": tier}, timeout=300)]
     to = 12 if tier == "quick" else 45
     idx = 0
     for text, tags in preds + combos:
@@ -243,6 +279,9 @@ def obligations(tier, seed):
 
 # ------------------------------------------------------------------------------------------------ replay
 def replay(res):
+    if res["kind"] == "side" and "generators-concrete" in res["id"]:
+        out = generators_concrete(res["args"].get("tier", "quick"))
+        return {"reproduced": not out["ok"], "key": "C07/generators-concrete", "what": out["detail"][:700], "input": out["cex"]}
     if res["kind"] == "side":
         out = check_value_types_plain()
         return {"reproduced": False, "what": "injection device unsound: " + out["detail"]}
